@@ -14,7 +14,7 @@ class C03(TieCheck):
         "pattern validity, psLen and hostSplit are taken from the real parseRoute (oracle input; parseRoute itself is C10); the hash used for the digests is FNV-1a 64",
     ]
     assumptions = [
-        "derived node fields (childKeys, param/wildcard child index, params, inode chain) are functions of key/route/children (checked by C01/C02 dumps); inode objects share their owner's children array and are not represented",
+        "derived node fields (childKeys, param/wildcard child index, params) are functions of key/route/children (checked by C01/C02 dumps); the inode chain is not a heap object of the model, the graph comparison checks that every node owns a fresh chain (one member per infix catch-all of its key) pointing at the node's own children array",
         "route listings in the model (countRoutes, getRouteConflict) use depth fuel 200; the refinement theorem assumes the tree is not deeper than the fuel",
     ]
 
